@@ -196,5 +196,10 @@ def run(ctx):
         ctx.check(len(ex) == 1 and isinstance(ex[0].args[0], ast.Call) and norm(ex[0].args[0].func) == 'run_program', 'C13.4', 'main:exit-with-status', f_main.loc(), 'main exits with exactly the status run_program returned',
                   'main exits with %s' % [e.text[:80] for e in ex])
     check_writers(ctx, 'C13.4', 'backends.libwayland_debug_output.runner._Subprocess', 'returncode', [('_Subprocess.__init__', lambda w: w.fresh), ('_Subprocess.run', None)], floor=2)
+    # "all of its output is processed even if it exits immediately": the one reader of all three modes keeps reading until the input has ended -
+    # the read loop is left only at end of input or on Ctrl-C (the loop-exit rule of C08.3, evaluated here on the same paths)
+    from .c08 import check_loop_exits as _cle, parse_all_paths as _pap
+    _cle(ctx, 'C13.4', _pap(ctx))
+
     return ('call-structure of main() over all Mode members, provenance of the child\'s argv/env/stderr and of the exit status, structural read '
             'discipline of the parser. Decided: %s. Undecided: %s' % ('; '.join(ctx.decided), '; '.join(ctx.undecided)))
